@@ -3,6 +3,8 @@
 use crate::util::*;
 use bugstalker::debugger::verif::PathSearchIndex;
 use serde_json::json;
+#[path = "c17/sym.rs"]
+pub mod sym;
 
 const COMPS: &[&str] = &["a", "b", "ab", "ns1", "ns2", "fn1", "fn2", "f", "main.rs", "src", "home", "", ":", "x:", "λ", "{impl#0}", "<T as U>"];
 
@@ -210,7 +212,7 @@ pub fn exec(req: &[String], out: &mut Out) {
     let mut bins: Vec<Vec<String>> = vec![];
     let mut order: Vec<(bool, usize, usize)> = vec![]; // (is_bin, index, len)
     while i < req.len() {
-        let is_bin = req[i].starts_with("C17 newbin ");
+        let is_bin = req[i].starts_with("C17 newbin ") || req[i].starts_with("C17 new sym ");
         let mut j = i + 1;
         while j < req.len() && !(req[j].starts_with("C17 new ") || req[j].starts_with("C17 newbin ")) { j += 1; }
         if is_bin { order.push((true, bins.len(), j - i)); bins.push(req[i..j].to_vec()); }
@@ -219,7 +221,7 @@ pub fn exec(req: &[String], out: &mut Out) {
     }
     let tmp = std::env::temp_dir().join(format!("bsv-c17-{}", std::process::id()));
     std::fs::create_dir_all(&tmp).unwrap();
-    let results = crate::live::run_sessions(&bins, &tmp, "c17", crate::live::par_default(), 60, |s, emit| bin_session(s, emit));
+    let results = crate::live::run_sessions(&bins, &tmp, "c17", crate::live::par_default(), 60, |s, emit| if s[0].starts_with("C17 new sym ") { sym::sym_session(s, emit) } else { bin_session(s, emit) });
     let _ = std::fs::remove_dir_all(&tmp);
     let mut plain_out = Out::new(&tmp.join("plain"));
     exec_index(&plain, &mut plain_out);
@@ -294,6 +296,7 @@ pub fn run(args: &[String]) {
             let mut rng = Rng::new(a.seed);
             let mut r = gen_requests(&mut rng, a.n, &mut out);
             r.extend(gen_bin_requests(&mut rng, &mut out));
+            r.extend(sym::gen_sym_requests(&mut rng, &mut out));
             r
         }
     };
